@@ -445,7 +445,7 @@ pub fn run(tier: Tier) -> ! {
             tracked.sort();
             tracked.dedup();
             let cfg = Arc::new(C18Cfg { scanner_kind: kind, ts, tracked, sweeps: tier.pick(4, 5), max_losses: tier.pick(2, 3), idents: vec![0x1337, 0x0001, 0xFFFF] });
-            let st = bfs(vec![C18World::init(&cfg)], &BfsOpts { max_depth: 80, max_states: 3_000_000, max_secs: tier.pick(8.0, 200.0) }, |_, nodes| {
+            let st = bfs(vec![C18World::init(&cfg)], &BfsOpts { max_depth: 80, max_states: 3_000_000, max_secs: tier.pick(120.0, 3000.0) }, |_, nodes| {
                 for n in nodes {
                     // convergence: after two sweeps without change the live list equals the answering set
                     if n.w.s.unchanged_sweeps >= 2 {
